@@ -59,6 +59,10 @@ def gen(rng, tier):
         cases.append(cell(*c, seed=rng.randint(1, 10**6)))
     return cases
 
+import c04 as _c04
+corr_equal = _c04.corr_equal
+
+
 def classify(case, model):
     t = case.split()
     if t[0] == "tables":
